@@ -566,19 +566,22 @@ def applyUpdate (spec : Val) (document : Val) (now : Val) (wasInsert : Bool) (ex
 
 /-! ### upsert seed: `_expand_dots`, `_discard_operators` -/
 
-/-- `_expand_dots`: one key -/
-def expandOne (k : String) (v : Val) : List String → Fields → R Fields
-  | [], acc => .ok acc
-  | [last], acc => .ok (dset last v acc)
-  | part :: rest, acc =>
+/-- `_expand_dots`: one key.  `pre` = the dotted prefix walked so far; when an intermediate is
+    not a sub-document the code raises WriteError through `paths[prefix]` — a KeyError instead
+    when that prefix was never recorded (it was reached through a sub-document given whole) -/
+def expandOne (paths : List String) (v : Val) : List String → List String → Fields → R Fields
+  | [], _, acc => .ok acc
+  | [last], _, acc => .ok (dset last v acc)
+  | part :: rest, pre, acc =>
     match dget part acc with
     | none => do
-      let sub ← expandOne k v rest []
+      let sub ← expandOne paths v rest (pre ++ [part]) []
       pure (dset part (.doc sub) acc)
     | some (.doc sub) => do
-      let sub' ← expandOne k v rest sub
+      let sub' ← expandOne paths v rest (pre ++ [part]) sub
       pure (dset part (.doc sub') acc)
-    | some _ => .error .writeErr
+    | some _ =>
+      if paths.contains (joinDots (pre ++ [part])) then .error .writeErr else .error .keyErr
 
 /-- `_expand_dots(doc)`; the duplicate-path check `k in paths` can only fire for prefixes
     recorded by an earlier, longer key -/
@@ -587,8 +590,11 @@ def expandDots (doc : Fields) : R Fields :=
     if st.2.contains kv.1 then .error .writeErr
     else
       let parts := splitDots kv.1
+      -- `paths[k] = k` first; a prefix of `k` is recorded only after its intermediate passed
+      -- the test, so the test of a prefix sees the prefixes of earlier keys and `k` itself
       let prefixes := (List.range parts.length).map (fun i => joinDots (parts.take (i + 1)))
-      (expandOne kv.1 kv.2 parts st.1).map (fun acc' => (acc', st.2 ++ prefixes))
+      (expandOne (st.2 ++ [kv.1]) kv.2 parts [] st.1).map
+        (fun acc' => (acc', st.2 ++ prefixes))
   (doc.foldlM step ([], [])).map (·.1)
 
 mutual
